@@ -53,8 +53,16 @@ pub struct Opts {
     pub verbose: bool,
 }
 
+thread_local! {
+    /// depth of `run_catch` frames on this thread: panics inside are expected outcomes (refusals)
+    pub static CATCH_DEPTH: std::cell::Cell<usize> = std::cell::Cell::new(0);
+}
+
 pub fn run_catch<R>(f: impl FnOnce() -> R) -> Result<R, String> {
-    match catch_unwind(AssertUnwindSafe(f)) {
+    CATCH_DEPTH.with(|d| d.set(d.get() + 1));
+    let res = catch_unwind(AssertUnwindSafe(f));
+    CATCH_DEPTH.with(|d| d.set(d.get() - 1));
+    match res {
         Ok(r) => Ok(r),
         Err(e) => {
             let msg = if let Some(s) = e.downcast_ref::<&str>() {
